@@ -370,6 +370,20 @@ class StatementInserter(ast.NodeTransformer, EmitterMixin):
                 else [_get_parsed_append_stmt(prev_stmt_copy)]
             )
 
+    def _is_docstring_stmt(
+        self, node: ast.AST, field_name: str, inner_node: ast.stmt
+    ) -> bool:
+        if field_name != "body" or not isinstance(
+            node, (ast.FunctionDef, ast.AsyncFunctionDef)
+        ):
+            return False
+        body, _ = strip_globals_and_nonlocals(node.body)
+        if len(body) == 0 or body[0] is not inner_node:
+            return False
+        # look at the pristine copy: the expression rewriter may already have wrapped the constant
+        stmt_copy = self.orig_to_copy_mapping[id(inner_node)]
+        return isinstance(stmt_copy, ast.Expr) and isinstance(stmt_copy.value, StrConst)
+
     def _handle_stmt(
         self, node: ast.AST, field_name: str, inner_node: ast.stmt
     ) -> List[ast.stmt]:
@@ -378,6 +392,9 @@ class StatementInserter(ast.NodeTransformer, EmitterMixin):
             node, (ast.FunctionDef, ast.AsyncFunctionDef, ast.For, ast.While)
         ) and isinstance(inner_node, (ast.Global, ast.Nonlocal)):
             return stmts_to_extend
+        if self._is_docstring_stmt(node, field_name, inner_node):
+            # _handle_function_body sets the docstring aside as exactly one statement: emit no events around it
+            return [inner_node]
         stmt_copy = cast(ast.stmt, self.orig_to_copy_mapping[id(inner_node)])
         main_and_maybe_after = self._make_main_and_after_stmt_stmts(
             node, field_name, inner_node, stmt_copy
